@@ -12,6 +12,37 @@ import claripy
 VARS = [("x", "bv", 4), ("y", "bv", 3), ("z", "bv", 3), ("b", "bool", 1)]
 
 
+class Origin(claripy.Annotation):
+    """what clients of unsat_core() put on the constraints they add: says where a constraint came from.  Not eliminatable,
+    relocatable; equal by `where` (hash stable across processes)."""
+
+    def __init__(self, where):
+        self.where = where
+
+    @property
+    def eliminatable(self):
+        return False
+
+    @property
+    def relocatable(self):
+        return True
+
+    def __hash__(self):
+        return claripy.annotation._exact_hash("Origin", self.where) if hasattr(claripy.annotation, "_exact_hash") else hash(("Origin", self.where))
+
+    def __eq__(self, other):
+        return isinstance(other, Origin) and other.where == self.where
+
+    def __repr__(self):
+        return "Origin(%d)" % self.where
+
+
+def _ann(c, k=1):
+    """expression language: Ann(c, k) = the Bool c carrying an annotation (k = 0: the built-in, eliminatable
+    UninitializedAnnotation, which every backend accepts; k > 0: Origin(k))"""
+    return c.annotate(claripy.annotation.UninitializedAnnotation() if k == 0 else Origin(k))
+
+
 class Universe:
     def __init__(self, vars_=VARS, tag="v"):
         self.vars = list(vars_)
@@ -44,6 +75,7 @@ class Universe:
         self.ns["xs"] = self.sym["x"].annotate(claripy.annotation.SimplificationAvoidanceAnnotation())
         self.ns["fa"] = claripy.FPS("%s_fa" % tag, claripy.FSORT_DOUBLE, explicit_name=True)   # identity checks only (no value tables)
         self.ns["FPV"], self.ns["FSORT_DOUBLE"] = claripy.FPV, claripy.FSORT_DOUBLE
+        self.ns["Ann"] = _ann
 
     def parse(self, s):
         """expression language of replays: a Python expression over the variables and claripy constructors.
@@ -237,8 +269,12 @@ LINKS = {("x", "y"): ["UGT(x, ZeroExt(1, y))", "ULT(x, ZeroExt(1, y))", "x != Ze
 #  solution{e,v,extra}  is_true/is_false{e,extra}  simplify  downsize  branch (creates solver index len(solvers))
 
 def gen_history(rng, length, calpha=CONSTRAINTS, ealpha=EXPRS, balpha=BOOLS, uni=None, max_solvers=4,
-                weights=None, threads=0, replace=0.0, replace_any=False, symv=0.0, first_eq=0.0, contra=0.0, prefix=None, pickle_all=0.0):
-    """pickle_all: share of pickle calls that send ALL solvers of the history through one dump (what they share stays shared);
+                weights=None, threads=0, replace=0.0, replace_any=False, symv=0.0, first_eq=0.0, contra=0.0, prefix=None, pickle_all=0.0,
+                core_extra=0.0, annotate=0.0, ann_kinds=(1, 2, 3)):
+    """core_extra: share of unsat_core() calls that pass extra constraints (what-if cores), a part of them contradicting
+    a constraint the solver holds;  annotate: share of added constraints that carry an annotation (`Ann(c, k)`, k from ann_kinds;
+    the generator's own bookkeeping keeps the plain text);
+    pickle_all: share of pickle calls that send ALL solvers of the history through one dump (what they share stays shared);
     symv: share of solution() calls whose value is itself a symbolic expression (of the width of `e`);
     first_eq: share of FIRST constraints of a solver (none added to it or its ancestors yet) that are `variable == constant`;
     contra: share of add() calls that contradict a constraint the solver already holds SYNTACTICALLY (v == c against
@@ -248,7 +284,8 @@ def gen_history(rng, length, calpha=CONSTRAINTS, ealpha=EXPRS, balpha=BOOLS, uni
     if threads:
         # thread hand-off: the same history, each call tagged with the thread that makes it (runs of calls per thread)
         hist, t = gen_history(rng, length, calpha, ealpha, balpha, uni, max_solvers, weights, replace=replace, replace_any=replace_any,
-                              symv=symv, first_eq=first_eq, contra=contra, prefix=prefix, pickle_all=pickle_all), 0
+                              symv=symv, first_eq=first_eq, contra=contra, prefix=prefix, pickle_all=pickle_all,
+                              core_extra=core_extra, annotate=annotate, ann_kinds=ann_kinds), 0
         for d in hist:
             if rng.random() < 0.3:
                 t = rng.randrange(threads + 1)
@@ -325,6 +362,8 @@ def gen_history(rng, length, calpha=CONSTRAINTS, ealpha=EXPRS, balpha=BOOLS, uni
             for c in d["cs"]:
                 used[s] |= _vars_of(c)
             held[s] += d["cs"]
+            if annotate and not d.get("repl"):
+                d["cs"] = ["Ann(%s, %d)" % (c, rng.choice(ann_kinds)) if rng.random() < annotate else c for c in d["cs"]]
         elif op == "satisfiable":
             d["extra"] = extra()
         elif op == "eval":
@@ -352,6 +391,12 @@ def gen_history(rng, length, calpha=CONSTRAINTS, ealpha=EXPRS, balpha=BOOLS, uni
             d.update(e=rng.choice(balpha), extra=extra())
         elif op == "unsat_core":
             d["extra"] = []
+            if core_extra and rng.random() < core_extra:
+                # a what-if core: the extra constraints contradict something the solver holds (2 of 3) or are just any
+                if held[s] and rng.random() < 0.67:
+                    d["extra"] = [contradicting_add(rng, held[s], calpha)[-1]]
+                else:
+                    d["extra"] = [rng.choice(calpha) for _ in range(rng.choice([1, 1, 2]))]
         elif op == "pickle":
             if pickle_all and rng.random() < pickle_all:
                 d["all"] = True       # all solvers of the history in one dump (oracle-only streams)
@@ -648,12 +693,118 @@ def prefix_unsat_then_structure(rng, calpha, ealpha):
     return hist
 
 
-PREFIXES = {"unchecked-simplify": prefix_unchecked_simplify, "empty-branch": prefix_empty_branch, "early-pickle": prefix_early_pickle}
+_CONFLICTS = []
+
+
+def solver_only_conflicts():
+    """constraint sets without a model that no simplifier turns into `false`: a tie of two variables and an opposite tie,
+    or one solver-only constraint that nothing satisfies (brute force over the universe, once)"""
+    if not _CONFLICTS:
+        _size_of("x")
+        uni = _UNI[0]
+        for pair, links in LINKS.items():
+            for i, a in enumerate(links):
+                for b in links[i + 1:]:
+                    if uni.conj([uni.parse(a), uni.parse(b)]) == 0:
+                        _CONFLICTS.append((frozenset(pair), [a, b]))
+        for v, cs in OPAQUE.items():
+            _CONFLICTS.extend((frozenset([v]), [c]) for c in cs if uni.mask(uni.parse(c)) == 0)
+    return _CONFLICTS
+
+
+def _maybe_ann(rng, c, p, kinds=(1, 2, 3)):
+    return "Ann(%s, %d)" % (c, rng.choice(kinds)) if rng.random() < p else c
+
+
+def prefix_core_whatif(rng, annotate=0.0, ann_kinds=(1, 2, 3)):
+    """The solver's OWN constraints have no model, in a way only a solver sees (a tie and its opposite; a constraint on one
+    variable that nothing satisfies), next to a harmless constraint on another variable r - often added last.  Mostly the
+    verdict is learnt by a question.  Then a core is asked for under an extra constraint that contradicts the constraint
+    on r (a what-if core may rely on the extras), and then the core of the solver itself: at once, again, on a branch."""
+    _size_of("x")
+    uni = _UNI[0]
+    vs, body = rng.choice(solver_only_conflicts())
+    rest = [v for v in ("x", "y", "z") if v not in vs]
+    r = rng.choice(rest)
+    pool = [c for c in CONSTRAINTS if _vars_of(c) == {r}] + ["%s == %d" % (r, k) for k in range(8)] + ["%s != %d" % (r, k) for k in range(3)]
+    rc = rng.choice([c for c in pool if uni.mask(uni.parse(c))])
+    against = [c for c in pool if uni.conj([uni.parse(c), uni.parse(rc)]) == 0 and uni.mask(uni.parse(c))] or ["Not(%s)" % rc]
+    adds = [[c] for c in body]
+    if rng.random() < 0.5:
+        adds.append([rc])
+    else:
+        adds.insert(rng.randrange(len(adds) + 1), [rc])
+    if len(rest) > 1 and rng.random() < 0.3:
+        other = [c for c in CONSTRAINTS if _vars_of(c) and _vars_of(c) <= set(rest) - {r} | {"b"}]
+        adds.insert(rng.randrange(len(adds) + 1), [rng.choice(other)])
+    hist = [_add([_maybe_ann(rng, c, annotate, ann_kinds) for c in cs]) for cs in adds]
+    k = rng.random()
+    if k < 0.6:
+        hist.append({"s": 0, "op": "satisfiable", "extra": []})
+    elif k < 0.8:
+        hist.append({"s": 0, "op": "eval", "e": rng.choice(["x", "y", "z"]), "n": rng.choice([1, 5]), "extra": []})
+    t = 0
+    if rng.random() < 0.2:
+        hist.append({"s": 0, "op": "branch"})
+        t = 1
+    hist.append({"s": t, "op": "unsat_core", "extra": [rng.choice(against)] + ([rng.choice(CONSTRAINTS)] if rng.random() < 0.15 else [])})
+    hist.append({"s": t, "op": "unsat_core", "extra": []})
+    if rng.random() < 0.5:
+        if t == 0 and rng.random() < 0.6:
+            hist.append({"s": 0, "op": "branch"})
+            hist.append({"s": 1, "op": "unsat_core", "extra": []})
+        else:
+            hist.append({"s": t, "op": "unsat_core", "extra": [rng.choice(against)] if rng.random() < 0.3 else []})
+    return hist
+
+
+def prefix_annotated_core(rng, annotate=0.7, ann_kinds=(1, 2, 3)):
+    """Constraints that say where they came from (annotations): a few harmless ones, a constraint c and - added on its own,
+    while the solver still holds few constraints - one that contradicts c syntactically (v == k against v == k' / v != k,
+    c against Not(c)) or through a solver-only conflict; either, both or none annotated.  Then the core is asked for: on the
+    solver, after a branch, after further adds.  Every element of a core must be one of the ASTs that was added."""
+    _size_of("x")
+    hist, held = [], []
+    for _ in range(rng.choice([0, 0, 1, 2, 3])):
+        c = rng.choice([c for c in CONSTRAINTS if _vars_of(c) and c not in ("false",)])
+        held.append(c)
+        hist.append(_add([_maybe_ann(rng, c, annotate / 2, ann_kinds)]))
+    if rng.random() < 0.75:
+        v = rng.choice(["x", "x", "y", "z"])
+        c = "%s == %d" % (v, rng.randrange(8)) if rng.random() < 0.7 else rng.choice([c for c in CONSTRAINTS if _vars_of(c) == {v}])
+        hist.append(_add([_maybe_ann(rng, c, annotate, ann_kinds)]))
+        if rng.random() < 0.3:
+            c2 = rng.choice([c for c in CONSTRAINTS if _vars_of(c)])
+            hist.append(_add([_maybe_ann(rng, c2, annotate / 2, ann_kinds)]))
+        if rng.random() < 0.25:
+            hist.append(_query(rng, 0, ["x", "y", "z"], big=False))
+        bad = contradicting_add(rng, [c], CONSTRAINTS)
+        if rng.random() < 0.7:
+            bad = bad[-1:] if _vars_of(bad[-1]) & _vars_of(c) else bad[:1]
+        hist.append(_add([_maybe_ann(rng, b, annotate, ann_kinds) for b in bad]))
+    else:
+        vs, body = rng.choice(solver_only_conflicts())
+        for c in body:
+            hist.append(_add([_maybe_ann(rng, c, annotate, ann_kinds)]))
+    t = 0
+    if rng.random() < 0.25:
+        hist.append({"s": 0, "op": "branch"})
+        t = rng.choice([0, 1])
+    hist.append({"s": t, "op": "unsat_core", "extra": []})
+    if rng.random() < 0.4:
+        hist.append(_add([_maybe_ann(rng, rng.choice(CONSTRAINTS), annotate, ann_kinds)], t))
+        hist.append({"s": t, "op": "unsat_core", "extra": []})
+    return hist
+
+
+PREFIXES = {"unchecked-simplify": prefix_unchecked_simplify, "empty-branch": prefix_empty_branch, "early-pickle": prefix_early_pickle,
+            "core-whatif": prefix_core_whatif, "annotated-core": prefix_annotated_core}
 
 
 def gen_directed(rng, length, shape=None, **gen):
     """a directed opening (PREFIXES) followed by `length` random calls"""
-    return gen_history(rng, length, prefix=PREFIXES[shape](rng), **gen)
+    pk = {k: gen[k] for k in ("annotate", "ann_kinds") if k in gen} if shape in ("core-whatif", "annotated-core") else {}
+    return gen_history(rng, length, prefix=PREFIXES[shape](rng, **pk), **gen)
 
 
 def all_short_histories(maxlen, calpha=SMALL_CONSTRAINTS, ealpha=SMALL_EXPRS):
@@ -988,22 +1139,38 @@ def structure_predicate(solver, d):
 
 def judge_core(uni, ref, solver, d, outcome):
     """C16 on one unsat_core() answer.  `Added to the solver` is read as: a constraint the user added or one the
-    solver currently holds (its own simplified / expansion constraints) - see design_notes/C16.md."""
+    solver currently holds (its own simplified / expansion constraints; for a composite: held by one of its children) -
+    see design_notes/C16.md.  Elements are compared by AST identity (hash): the un-annotated twin of an annotated
+    constraint is NOT that constraint.  A core asked for WITH extra constraints may rely on them: it has to be
+    unsatisfiable together with them (so it may be empty when they alone have no model)."""
     if outcome[0] == "err":
         return ("crash:" + outcome[1], "unsat_core raised %s: %s" % (outcome[1], outcome[2]))
     if outcome[0] == "unsat":
         return ("crash:UnsatError", "unsat_core raised UnsatError")
     core = outcome[1]
-    sm = ref.satmask(d["s"], [uni.parse(c) for c in d.get("extra", [])])
+    extra = [uni.parse(c) for c in d.get("extra", [])]
+    tag = ":with-extra" if extra else ""
+    sm = ref.satmask(d["s"], extra)
     if sm != 0:
-        return None if len(core) == 0 else ("nonempty-on-sat", "core %s although the constraints are satisfiable" % (core,))
+        return None if len(core) == 0 else ("nonempty-on-sat" + tag, "core %s although the constraints are satisfiable" % (core,))
     if not all(isinstance(c, claripy.ast.Base) for c in core):
-        return ("nested-element", "core contains a non-constraint element: %r" % (core,))
+        return ("nested-element" + tag, "core contains a non-constraint element: %r" % (core,))
     known = {c.hash() for c in ref.lists[d["s"]]} | {c.hash() for c in solver.constraints}
+    for child in getattr(solver, "_solver_list", ()):
+        known |= {c.hash() for c in child.constraints}
     if not all(c.hash() in known for c in core):
-        return ("foreign-element", "core element was never added to / is not held by the solver: %s" % ([str(c) for c in core],))
-    if uni.conj(list(core)) != 0:
-        return ("satisfiable-or-empty-core", "the conjunction of the core %s is satisfiable" % ([str(c) for c in core],))
+        twins = {c.clear_annotations().hash() for c in ref.lists[d["s"]] if c.annotations}
+        pred = ":unannotated-twin" if any(c.hash() not in known and c.hash() in twins for c in core) else ""
+        return ("foreign-element" + pred + tag, "core element was never added to / is not held by the solver: %s (added: %s)" % (
+            ["%s %s" % (c, list(c.annotations)) for c in core], ["%s %s" % (c, list(c.annotations)) for c in ref.lists[d["s"]]][:12]))
+    if uni.conj(list(core)) & uni.conj(extra) != 0:
+        pred = ""
+        if len(core) == 0:
+            pred = ":empty"
+            if any(len(c.variables) == 0 and uni.mask(c) == 0 for c in ref.lists[d["s"]]):
+                pred = ":empty-with-concrete-false"
+        return ("satisfiable-or-empty-core" + pred + tag, "the conjunction of the core %s%s is satisfiable" % (
+            [str(c) for c in core], " and the extra constraints" if extra else ""))
     return None
 
 
@@ -1517,6 +1684,11 @@ def signature(prop, cls, cfg, hist, idx, kind):
     for p in ("eval", "batch_eval", "min", "max", "solution", "simplify", "branch", "downsize", "pickle"):
         if p in prior:
             preds.append("after-" + p)
+    if d["op"] == "unsat_core":
+        if any(q["op"] == "unsat_core" and q.get("extra") for q in hist[:idx]):
+            preds.append("after-core-with-extra")
+        if any(q["op"] == "add" and any("Ann(" in c for c in q["cs"]) for q in hist[:idx]):
+            preds.append("annotated")
     for q in hist[:idx + 1]:
         if q.get("fault") is not None and (q["s"] == d["s"] or True):
             preds.append("giveup-in-" + q["op"])
